@@ -211,6 +211,8 @@ SAMPLES = [
     ([(5, 100), (2, 10)], [[995, 996], [950, 951, 952, 953, 996], [850, 995], [901, 902, 903, 904, 991]]),
     ([(3, 50), (2, 10), (6, 200)], [[810, 820, 830, 840, 845, 990], [810, 820, 830, 960, 970, 999], [960, 970, 980], [805, 806, 807, 808, 809], [700, 790, 850, 990], [799, 801]]),
     ([(1, 5)], [[], [994], [996]]),
+    ([(4, 20), (2, 20)], [[990, 995], [985], [970, 990, 991, 992]]),                                              # two limits with the same period: both apply
+    ([(2, 20), (4, 20)], [[990, 995], [985]]),
     ([(4, 10), (2, 30)], [[975, 980], [975, 995], [960, 995, 996, 997], [991, 992, 993, 994], [965, 969]]),     # the longer period has the smaller quota
     ([(2, 30), (4, 10)], [[975, 980], [960, 995, 996, 997]]),
     ([(3, 20), (3, 60)], [[950, 951, 990], [945, 950, 985], [939, 985, 990, 995]]),                              # equal quotas
